@@ -13,7 +13,7 @@ Definition placed_poly (t : tfR) (l : list segR) : list segR := map (seg_transfo
 
 Theorem scored_convex_polygon_packing (st : pstateR) (l : list segR) :
   wf_state st -> p_shape NumR st = Poly l -> packed_score NumR st <> None ->
-  forall i j (n m : Z), (i < length (p_syms NumR st))%nat -> (j < length (p_syms NumR st))%nat ->
+  forall i j (n m : Z), (i < copies st)%nat -> (j < copies st)%nat ->
   ~ (i = j /\ n = 0%Z /\ m = 0%Z) ->
   let P := placed_poly (copy st i) l in let Q := placed_poly (image st j n m) l in
   forall sP sQ, convex sP P -> convex sQ Q -> closed P -> closed Q ->
